@@ -384,25 +384,33 @@ def cell_atoms(deck, cel, style=None, expand_like=False):
     return atoms
 
 
+OPTION_GROUPS = ('mat', 'rho', 'imp', 'u', 'lat', 'fill', 'extra', 'trcl')
+
+
 def option_atoms(deck, cel, only=None):
-    out = []
+    '''Keyword part of a cell card.  The keywords come in the order of
+    `cel.opt_order` (a permutation of OPTION_GROUPS) if the generator set it,
+    for a LIKE card in the order of its BUT list, else in a fixed order: the
+    order of the keywords on a card is free in MCNP.'''
+    groups = {}
 
     def want(name):
         return only is None or name in only
 
     if only is not None and 'mat' in only:
-        out.append(f'mat={cel.mat}')
+        groups['mat'] = [f'mat={cel.mat}']
     if only is not None and 'rho' in only:
-        out.append(f'rho={cel.rho}')
+        groups['rho'] = [f'rho={cel.rho}']
     if cel.imp is not None and want('imp'):
-        for parts, val in cel.imp.items():
-            out.append(f'imp:{parts}={val}')
+        groups['imp'] = [f'imp:{parts}={val}'
+                         for parts, val in cel.imp.items()]
     if cel.u is not None and want('u'):
         sign = '-' if getattr(cel, 'u_negative', False) else ''
-        out.append(f'u={sign}{cel.u}')
+        groups['u'] = [f'u={sign}{cel.u}']
     if cel.lat is not None and want('lat'):
-        out.append(f'lat={cel.lat}')
+        groups['lat'] = [f'lat={cel.lat}']
     if cel.fill is not None and want('fill'):
+        out = []
         fil = cel.fill
         star = '*' if (fil.tr is not None and fil.tr.starred) else ''
         if fil.array is not None:
@@ -415,10 +423,11 @@ def option_atoms(deck, cel, only=None):
             out.append(f'{star}fill={fil.universe}')
         if fil.tr is not None:
             out.extend(fil.tr.atoms_paren())
-    for extra in getattr(cel, 'extra_opts', None) or []:
-        if only is None:
-            out.append(extra)
+        groups['fill'] = out
+    if only is None and (getattr(cel, 'extra_opts', None) or []):
+        groups['extra'] = list(cel.extra_opts)
     if cel.trcl is not None and want('trcl'):
+        out = []
         star = '*' if cel.trcl.starred else ''
         if cel.trcl.number is not None:
             out.append(f'{star}trcl={cel.trcl.number}')
@@ -426,7 +435,28 @@ def option_atoms(deck, cel, only=None):
             par = cel.trcl.atoms_paren()
             out.append(f'{star}trcl={par[0]}')
             out.extend(par[1:])
-    return out
+        groups['trcl'] = out
+    order = getattr(cel, 'opt_order', None)
+    if order is None and only is not None and getattr(cel, 'but_ordered',
+                                                      False):
+        order = [name for name in only if name in OPTION_GROUPS]
+    if order is None:
+        order = OPTION_GROUPS
+    order = list(order) + [g for g in OPTION_GROUPS if g not in order]
+    atoms = []
+    for name in order:
+        atoms.extend(groups.get(name, []))
+    return atoms
+
+
+def shuffle_options(deck, rng, share=0.5):
+    '''Give a share of the cells a random order of their keywords.'''
+    for cel in deck.cells:
+        if rng.random() < share:
+            order = list(OPTION_GROUPS)
+            rng.shuffle(order)
+            cel.opt_order = order
+    deck.tags.add('keywords.unordered')
 
 
 def wrap_atoms(atoms, width=76):
